@@ -698,6 +698,7 @@ fn corpus() -> Vec<(&'static str, Value)> {
         // no grid section / not an object
         ("corpus_passthrough", json!({"origin_x": 1.5, "destination_x": 2, "nested": {"grid_search": {"a": [1]}}})),
         ("corpus_passthrough", json!({})),
+        ("corpus_passthrough", json!({"grid_search_2": {"a": [1, 2]}, "Grid_Search": {"a": [1, 2]}, "grid": 1})),
         ("corpus_passthrough", json!([{"grid_search": {"a": [1, 2]}}])),
         ("corpus_passthrough", json!("grid_search")),
         ("corpus_passthrough", json!(null)),
